@@ -16,6 +16,7 @@ SPECIFICATION Spec
 INVARIANT LtsTypeOK
 INVARIANT Total
 INVARIANT Deterministic
+INVARIANT PayloadFree
 INVARIANT CascadeAgrees
 INVARIANT StrictIffWarn
 INVARIANT SlurpOnlyFromHeading
